@@ -2,6 +2,7 @@ package decoder
 
 import (
 	"fmt"
+	"reflect"
 	"unsafe"
 
 	"github.com/goccy/go-json/internal/errors"
@@ -15,13 +16,9 @@ type arrayDecoder struct {
 	alen         int
 	structName   string
 	fieldName    string
-	zeroValue    unsafe.Pointer
 }
 
 func newArrayDecoder(dec Decoder, elemType *runtime.Type, alen int, structName, fieldName string) *arrayDecoder {
-	// workaround to avoid checkptr errors. cannot use `*(*unsafe.Pointer)(unsafe_New(elemType))` directly.
-	zeroValuePtr := unsafe_New(elemType)
-	zeroValue := **(**unsafe.Pointer)(unsafe.Pointer(&zeroValuePtr))
 	return &arrayDecoder{
 		valueDecoder: dec,
 		elemType:     elemType,
@@ -29,7 +26,20 @@ func newArrayDecoder(dec Decoder, elemType *runtime.Type, alen int, structName, 
 		alen:         alen,
 		structName:   structName,
 		fieldName:    fieldName,
-		zeroValue:    zeroValue,
+	}
+}
+
+// zeroFrom sets the elements from idx on to the zero value of the element type: all of each
+// element, and nothing beyond the array (one pointer-sized store per element, as before, wrote past
+// the end of arrays of small elements and left the length of strings and slices in place).
+func (d *arrayDecoder) zeroFrom(p unsafe.Pointer, idx int) {
+	if idx >= d.alen {
+		return
+	}
+	typ := runtime.RType2Type(d.elemType)
+	zero := reflect.Zero(typ)
+	for ; idx < d.alen; idx++ {
+		reflect.NewAt(typ, unsafe.Pointer(uintptr(p)+uintptr(idx)*d.size)).Elem().Set(zero)
 	}
 }
 
@@ -51,10 +61,7 @@ func (d *arrayDecoder) DecodeStream(s *Stream, depth int64, p unsafe.Pointer) er
 			idx := 0
 			s.cursor++
 			if s.skipWhiteSpace() == ']' {
-				for idx < d.alen {
-					*(*unsafe.Pointer)(unsafe.Pointer(uintptr(p) + uintptr(idx)*d.size)) = d.zeroValue
-					idx++
-				}
+				d.zeroFrom(p, idx)
 				s.cursor++
 				return nil
 			}
@@ -71,10 +78,7 @@ func (d *arrayDecoder) DecodeStream(s *Stream, depth int64, p unsafe.Pointer) er
 				idx++
 				switch s.skipWhiteSpace() {
 				case ']':
-					for idx < d.alen {
-						*(*unsafe.Pointer)(unsafe.Pointer(uintptr(p) + uintptr(idx)*d.size)) = d.zeroValue
-						idx++
-					}
+					d.zeroFrom(p, idx)
 					s.cursor++
 					return nil
 				case ',':
@@ -127,10 +131,7 @@ func (d *arrayDecoder) Decode(ctx *RuntimeContext, cursor, depth int64, p unsafe
 			cursor++
 			cursor = skipWhiteSpace(buf, cursor)
 			if buf[cursor] == ']' {
-				for idx < d.alen {
-					*(*unsafe.Pointer)(unsafe.Pointer(uintptr(p) + uintptr(idx)*d.size)) = d.zeroValue
-					idx++
-				}
+				d.zeroFrom(p, idx)
 				cursor++
 				return cursor, nil
 			}
@@ -152,10 +153,7 @@ func (d *arrayDecoder) Decode(ctx *RuntimeContext, cursor, depth int64, p unsafe
 				cursor = skipWhiteSpace(buf, cursor)
 				switch buf[cursor] {
 				case ']':
-					for idx < d.alen {
-						*(*unsafe.Pointer)(unsafe.Pointer(uintptr(p) + uintptr(idx)*d.size)) = d.zeroValue
-						idx++
-					}
+					d.zeroFrom(p, idx)
 					cursor++
 					return cursor, nil
 				case ',':
